@@ -16,7 +16,7 @@ PROPS = {
         ],
     },
     "C01": {
-        "theorems": ["SV.Props.C01.source_detectors_are_the_models", "SV.Props.C01.nonce_run_of_every_reachable_pool", "SV.Props.C01.nonce_run", "SV.Props.C01.nonce_run_select", "SV.Props.C01.reachable_lists_sorted"],
+        "theorems": ["SV.Props.C01.wrapper_refines_pure_session", "SV.Props.C01.nonce_run_for_any_session_oracle", "SV.Props.C01.each_account_looked_up_once", "SV.Props.C01.source_detectors_are_the_models", "SV.Props.C01.nonce_run_of_every_reachable_pool", "SV.Props.C01.nonce_run", "SV.Props.C01.nonce_run_select", "SV.Props.C01.reachable_lists_sorted"],
         "modules": ["SV.Props.C01"],
         "runs": [{"component": "txcache", "thorough_seeds": 3, "compare_kinds": ["selb"]}],
         "rule": "random add/rm/clear/sel histories over a small transaction alphabet (hash determines content) under boundary-biased configurations; distinct = distinct (operation kind, canonical output incl. full API dump) pairs observed on the implementation",
@@ -26,7 +26,7 @@ PROPS = {
         ],
     },
     "C02": {
-        "theorems": ["SV.Props.C02.source_balance_test_is_the_models", "SV.Props.C02.source_balance_test_reads", "SV.Props.C02.source_loop_exits_are_the_models", "SV.Props.C02.constraints_of_every_reachable_pool", "SV.Props.C02.distinct_members", "SV.Props.C02.count_bound", "SV.Props.C02.gas_sum_and_budget", "SV.Props.C02.no_bad_guard", "SV.Props.C02.balances_cover", "SV.Props.C02.current_does_not_wrap", "SV.Props.C02.legacy_gas_counterexample"],
+        "theorems": ["SV.Props.C02.balances_cover_for_any_session_oracle", "SV.Props.C02.source_balance_test_is_the_models", "SV.Props.C02.source_balance_test_reads", "SV.Props.C02.source_loop_exits_are_the_models", "SV.Props.C02.constraints_of_every_reachable_pool", "SV.Props.C02.distinct_members", "SV.Props.C02.count_bound", "SV.Props.C02.gas_sum_and_budget", "SV.Props.C02.no_bad_guard", "SV.Props.C02.balances_cover", "SV.Props.C02.current_does_not_wrap", "SV.Props.C02.legacy_gas_counterexample"],
         "modules": ["SV.Props.C02"],
         "runs": [{"component": "txcache", "thorough_seeds": 3, "compare_kinds": ["selb"]}],
         "rule": "random add/rm/clear/sel histories over a small transaction alphabet (hash determines content) under boundary-biased configurations; distinct = distinct (operation kind, canonical output incl. full API dump) pairs observed on the implementation",
